@@ -62,8 +62,8 @@ def gen_c12(rng, big=False):
         sv["npool"] = "shared"
     if rng.random() < 0.15:
         sv["custom_dispatch"] = True
-    life = rng.choices(["serve", "never-served", "shutdown-inflight", "handle-loop", "serve-twice", "close-while-serving"],
-                       [56, 8, 12, 8, 8, 8 if kind != "plain" else 0])[0]
+    life = rng.choices(["serve", "never-served", "shutdown-inflight", "handle-loop", "serve-twice", "close-while-serving", "stop-rpc"],
+                       [52, 8, 12, 8, 8, 8 if kind != "plain" else 0, 5 if kind != "plain" else 0])[0]
     methods = {"echo": {"kind": "echo"}, "fail": {"kind": "fail"},
                "slow": {"kind": "slow", "d": rng.choice([0.5, 1.0, 2.0])},
                "ns.echo": {"kind": "echo"}, "quit": {"kind": "exit"}, "err": {"kind": "sharedfault"}}
@@ -107,6 +107,12 @@ def gen_c12(rng, big=False):
             else:
                 ops.append(["sleep", rng.choice([0.25, 0.5, 1.0])])
         clients.append({"version": rng.choice([None, None, 2.0, 1.0]), "history": False, "ops": ops})
+    if life in ("serve", "stop-rpc") and rng.random() < 0.25:
+        sv["http11"] = True  # the handler class speaks HTTP/1.1: the library's clients keep their connections open
+    if life == "stop-rpc":
+        # one more client, started when the others are done: it calls the method that stops the serving loop
+        methods["stop_server"] = {"kind": "shutdown"}
+        clients.append({"version": rng.choice([None, 2.0, 1.0]), "history": False, "ops": [["call", "stop_server", ["c%do0" % nclients]]]})
     prog = {"server": sv, "net": {"seg": rng.choice(["whole", "whole", "random", "small"]), "delay": rng.choice([0, 0, 0, 8, 64])},
             "methods": methods, "clients": clients, "lifecycle": life}
     if life == "handle-loop":
@@ -375,6 +381,8 @@ class C12Scenario(object):
             p["request_without_length"] = 1
         if program["server"].get("npool") == "shared":
             p["shared_request_and_notification_pool"] = 1
+        if program["server"].get("http11") and any(len(sysim.parse_http(c.c2s)) > 1 for c in (s.net.conns if s.net is not None else [])):
+            p["several_requests_on_one_connection"] = 1
         if program["server"].get("abstract"):
             p["abstract_unix_address"] = 1
         if s.faults.get("close_with_unread_data") or s.faults.get("write_to_closed_peer"):
